@@ -84,6 +84,10 @@ func NewNegotiator(cfg func(*Session, *StreamConfig) StreamConfig) Negotiator {
 type negotiatorState struct {
 	doRestart bool
 	cancelTee context.CancelFunc
+
+	// sawFeatures is set once a features list has been negotiated on this
+	// session, ie. the next features list is not the first one.
+	sawFeatures bool
 }
 
 func negotiator(f func(*Session, *StreamConfig) StreamConfig) Negotiator {
@@ -204,7 +208,8 @@ func negotiator(f func(*Session, *StreamConfig) StreamConfig) Negotiator {
 		}
 
 		cfg = f(s, &cfg)
-		mask, rw, err = negotiateFeatures(ctx, s, data == nil, websocket, cfg.Features)
+		mask, rw, err = negotiateFeatures(ctx, s, !nState.sawFeatures, websocket, cfg.Features)
+		nState.sawFeatures = true
 		nState.doRestart = rw != nil
 		return mask, rw, nState, err
 	}
